@@ -1208,6 +1208,13 @@ func (e *Engine) execBlock(fr *Frame, st *State, b *ssa.BasicBlock, k retK) {
 			so := e.reg.sortOf(phi.Type())
 			nv := &Val{T: st.fresh("loop_"+phi.Comment, so), S: so, Typ: phi.Type()}
 			st.assume(e.wfVal(st, nv.T, so))
+			if isRangeIndex(phi) && so == sBV64 {
+				// the index the SSA builder makes for `range` over a slice or array starts at -1 and only ever grows by one
+				// while index+1 < len: it is never below -1 and stays below len - 1 <= MaxInt - 1, so index+1 cannot wrap (an
+				// invariant of the construct, not of the program)
+				st.assume("(bvsge " + nv.T + " #xffffffffffffffff)")
+				st.assume("(bvslt " + nv.T + " #x7fffffffffffffff)")
+			}
 			fr.env[phi] = nv
 		}
 		pre := copyMap(st.heap)
@@ -1219,6 +1226,33 @@ func (e *Engine) execBlock(fr *Frame, st *State, b *ssa.BasicBlock, k retK) {
 		st.trail = append(st.trail, fmt.Sprintf("loop#%d", ord))
 	}
 	e.execFrom(fr, st, b, nphi, k)
+}
+
+// isRangeIndex: phi is the hidden index of a `range` loop over a slice/array as go/ssa builds it: every incoming edge is
+// either the constant -1 (entry) or phi + 1 (one per back edge).
+func isRangeIndex(phi *ssa.Phi) bool {
+	if phi.Comment != "rangeindex" {
+		return false
+	}
+	okInit, okStep := false, false
+	for _, ed := range phi.Edges {
+		switch x := ed.(type) {
+		case *ssa.Const:
+			if x.Value == nil || x.Value.ExactString() != "-1" {
+				return false
+			}
+			okInit = true
+		case *ssa.BinOp:
+			c, ok := x.Y.(*ssa.Const)
+			if !ok || x.Op != token.ADD || x.X != ssa.Value(phi) || c.Value == nil || c.Value.ExactString() != "1" {
+				return false
+			}
+			okStep = true
+		default:
+			return false
+		}
+	}
+	return okInit && okStep
 }
 
 func hasLoopSpec(c *Contract, ord int) bool {
